@@ -128,3 +128,28 @@ def channelisation(draw, nchans=None):
         if lo < 50.0:
             fch1 = fch1 + (50.0 - lo)
     return {"fch1": fch1, "foff": foff}
+
+
+LAYOUTS = ["C", "F", "transposed_view", "strided_view", "reversed_view"]
+
+
+def relayout(x: np.ndarray, layout: str) -> np.ndarray:
+    """Same values and shape as x, different memory layout (a pure function of x)."""
+    x = np.asarray(x)
+    if layout == "C" or x.ndim == 0:
+        return np.ascontiguousarray(x)
+    if layout == "F":
+        return np.asfortranarray(x) if x.ndim > 1 else np.ascontiguousarray(x)
+    if layout == "transposed_view":
+        if x.ndim == 1:
+            return np.ascontiguousarray(x)
+        return np.ascontiguousarray(np.transpose(x)).transpose()
+    if layout == "strided_view":
+        big = np.zeros(tuple(2 * n for n in x.shape), dtype=x.dtype)
+        sl = tuple(slice(None, None, 2) for _ in x.shape)
+        big[sl] = x
+        return big[sl]
+    if layout == "reversed_view":
+        sl = tuple(slice(None, None, -1) for _ in x.shape)
+        return np.ascontiguousarray(x[sl])[sl]
+    raise ValueError(layout)
